@@ -902,9 +902,18 @@ func validateSpaceAndExits(c *Ctx, r *Rep, fn, validate *ssa.Function, d *dpRend
 				}
 				return false
 			}
+			// a flag of the search: some way in comes from behind a comparison with the wanted attribute, whichever way
+			behindEqual := func(p *ssa.BasicBlock) bool {
+				for _, g := range guardsOf(p) {
+					if call, ok := g.Cond.(*ssa.Call); ok && strings.HasSuffix(calleeFullName(call), ".Equal") {
+						return true
+					}
+				}
+				return false
+			}
 			anyMatch := false
 			for i := range flag.Edges {
-				if matched(b.Preds[i]) {
+				if behindEqual(b.Preds[i]) {
 					anyMatch = true
 				}
 			}
